@@ -49,13 +49,14 @@ ENDS = ["close", "timeout", "oserror"]
 def floors(tier):
     return {"reader": 2500, "wrapper": 1500, "real-socket": 40, "split-inside-frame": 1000,
             "end=close": 500, "end=timeout": 500, "end=oserror": 500, "all-compositions": 1000,
-            "bufsize=1": 100, "bufsize=4096": 100, "session>64KiB": 12}
+            "bufsize=1": 100, "bufsize=4096": 100, "session>64KiB": 12, "quiet-period": 200}
 
 
 def plan(tier, seed):
     return [{"what": "reader", "part": i} for i in range(8)] + [{"what": "long", "part": i} for i in range(4)] + [
         {"what": "compositions", "part": i} for i in range(4)] + [
-        {"what": "wrapper", "part": i} for i in range(3)] + [{"what": "real"}]
+        {"what": "wrapper", "part": i} for i in range(3)] + [{"what": "real"}, {"what": "pauses", "part": 0},
+                                                             {"what": "pauses", "part": 1}]
 
 
 def frame_spans(items):
@@ -120,6 +121,37 @@ def check_one(case) -> core.Out:
                 out.viol.append((key + "items-differ",
                                  f"{len(got)} items via socket vs {len(want)} via file; data {data[:50].hex()} "
                                  f"recv sizes {sizes[:12]} bufsize {bufsize} {S.opts_label(opts)}"))
+            return out
+        if k == "pauses":
+            data, opts = bytes(case["data"]), dict(case["opts"])
+            out = core.Out(classes=["quiet-period"], dig=core.digest((data, case["pauses"], case["bufsize"], case["chunks"])))
+            want, exc = S.read_all(io.BytesIO(data), opts, limit=4 * len(data) + 50)
+            if exc is not None:
+                out.classes = ["skipped:file-run-raises(C08)"]
+                return out
+            sock = S.ScriptedSocket(data, case["chunks"], "close", pauses=case["pauses"])
+            try:
+                rd = S.mk_reader(sock, dict(opts, bufsize=case["bufsize"]))
+                got, idle = [], 0
+                for _ in range(4 * len(data) + 50):
+                    raw, parsed = rd.read()
+                    if raw is None and parsed is None:
+                        idle += 1
+                        if idle > len(case["pauses"]) + 1:
+                            break
+                        continue  # the application tries again after a timeout
+                    got.append((raw, parsed))
+            except Exception as err:  # noqa
+                out.viol.append((f"{PROP}|quiet-period|raises:{type(err).__name__}", repr(err)[:200]))
+                return out
+            finally:
+                sock.close()
+            out.nontrivial = True
+            out.sample = {"data": data[:32], "quiet_periods_at": case["pauses"], "bufsize": case["bufsize"]}
+            if not S.same_items(got, want):
+                out.viol.append((f"{PROP}|quiet-period|items-differ",
+                                 f"{len(got)} items via a socket with receive timeouts at frame boundaries "
+                                 f"{case['pauses']}, {len(want)} via file; data {data[:40].hex()}"))
             return out
         if k == "wrapper":
             data = bytes(case["data"])
@@ -294,6 +326,12 @@ def run_shard(spec, ctx, acc):
             items = [streams.item("ubx", b"".join(body), "bulk")]
             tail = draw(st.lists(st.one_of(streams.nmea_items(), streams.nmea_items(), streams.ubx_items()),
                                  min_size=6, max_size=14))
+            if draw(st.booleans()):
+                import hashlib
+
+                n = draw(st.sampled_from([65535, 65534, 65533, 32768]))
+                tail.insert(draw(st.integers(0, 3)), streams.item(
+                    "ubx", S.codec.ubx_frame(b"\x04", b"\x02", hashlib.shake_256(bytes([n & 0xFF])).digest(n)), "len>=256"))
             items += tail
             data = streams.stream_bytes(items)
             step = draw(st.sampled_from([1000, 997, 1460, 4096, 512]))
@@ -306,6 +344,38 @@ def run_shard(spec, ctx, acc):
 
         core.hyp_search(acc, longcases(), check, seed=core.derive(ctx["seed"], PROP, "long", spec["part"]),
                         max_examples=5 if quick else 60, known=known, rounds=1, shrink=False)
+        # the largest payloads the length field can express, whole, between small frames
+        import hashlib
+
+        ack = S.codec.ubx_frame(b"\x05", b"\x01", b"\x06\x01")
+        for n in ([65535, 65534] if spec["part"] % 2 == 0 else [65533, 65535]):
+            big = S.codec.ubx_frame(b"\x04", b"\x02", hashlib.shake_256(bytes([n & 0xFF, spec["part"]])).digest(n))
+            data = ack + big + ack + ack
+            for step, bufsize, end in ((1460, 4096, "close"), (65536, 65536, "timeout"), (4096, 1024, "oserror")):
+                case = {"kind": "reader", "data": data, "items": None, "long": True,
+                        "opts": {"msgmode": 0, "validate": 1, "parsebitfield": 1, "quitonerror": 0, "protfilter": 7},
+                        "chunks": [step] * (len(data) // step + 2), "bufsize": bufsize, "end": end}
+                core.handle(acc, check(case), case, known)
+        return
+    if what == "pauses":
+        # quiet periods: the receive times out once at a frame boundary, the consumer
+        # calls read() again and data keeps coming (the README leaves timeout
+        # handling to the application: the wrapper must stay usable)
+        @st.composite
+        def pc(draw):
+            items = draw(streams.clean_streams(2, 6, noise=False, bursts=False))
+            data = streams.stream_bytes(items)
+            offs, o = [], 0
+            for it in items:
+                o += len(it["b"])
+                offs.append(o)
+            pauses = sorted(set(draw(st.lists(st.sampled_from(offs[:-1] or [0]), min_size=1, max_size=3))))
+            return {"kind": "pauses", "data": data, "pauses": pauses, "bufsize": draw(st.sampled_from(BUFSIZES)),
+                    "chunks": draw(schedules(items, len(data))),
+                    "opts": {"msgmode": 0, "validate": 1, "parsebitfield": 1, "quitonerror": 0, "protfilter": 7}}
+
+        core.hyp_search(acc, pc(), check, seed=core.derive(ctx["seed"], PROP, "p", spec["part"]),
+                        max_examples=150 if quick else 3000, known=known, rounds=2)
         return
     if what == "compositions":
         # every composition (ordered split) of short sequences
